@@ -61,7 +61,9 @@ Less == /\ IsEv("less") /\ E.exc = "" /\ UNCHANGED H
 
 (* objects of a type with its own allocator: each one released through that allocator, once, and handed over intact *)
 Pool == IsEv("pool") /\ E.exc = "" /\ E.released = 2 * E.n /\ E.garbled = 0 /\ E.inuse = 0 /\ UNCHANGED H
-Next == Plain \/ Pool \/ Cmp \/ CmpAlien \/ Hash \/ Copy \/ Swap \/ Same \/ Anti \/ Less
+(* cyclic object graphs survive collections and read back as built: 1,2,3 forwards then 1,3,2 backwards (x100) plus the odd garbage count *)
+Cycle == IsEv("cycle") /\ E.exc = "" /\ E.sum = 1200 + E.n \div 2 /\ UNCHANGED H
+Next == Plain \/ Cycle \/ Pool \/ Cmp \/ CmpAlien \/ Hash \/ Copy \/ Swap \/ Same \/ Anti \/ Less
 Spec == Init /\ [][Next]_vars
 Accepted == LET d == TLCGet("stats").diameter IN
             /\ PrintT(<<"TRACE_MATCHED", d - 1, Len(T)>>)
